@@ -695,6 +695,11 @@ func runC02(ctx *core.Ctx) {
 		runC02Oracle(ctx)
 		return
 	}
+	if os.Getenv("C02_ONLY") == "seq" { // development aid: only the load-sequence streams (round 6)
+		runC02History(ctx)
+		runC02LoadSeq(ctx)
+		return
+	}
 	if os.Getenv("C02_ONLY") == "round5" { // development aid: only the streams added in round 5 (many seeds, quickly)
 		runC02StageRepeat(ctx)
 		runC02ExtendsX(ctx)
@@ -988,5 +993,7 @@ func runC02(ctx *core.Ctx) {
 	}
 
 	// ---- 4. the direct oracle on whole loads
+	runC02History(ctx)
+	runC02LoadSeq(ctx)
 	runC02Oracle(ctx)
 }
